@@ -74,6 +74,22 @@ let chunk_pattern (pat : int list) data =
   let k = ref 0 in
   chunk_with (fun () -> let v = a.(!k mod Array.length a) in incr k; v) data
 
+(* scripted stream (harness EvChunked): events `.`-joined, `Eo` = fill_buf fails, `Ei` = fill_buf is
+   interrupted, <n> = the next n bytes become available (skipped when no byte is left); when the script
+   is used up the rest of the data comes as one chunk *)
+let estream_of_script (script : string) (data : byte list) : ev list =
+  let rec take k l acc = if k = 0 then (List.rev acc, l) else match l with
+    | [] -> (List.rev acc, [])
+    | x :: t -> take (k - 1) t (x :: acc) in
+  let rec go evs l acc = match evs with
+    | [] -> List.rev (if l = [] then acc else EData l :: acc)
+    | "Eo" :: r -> go r l (EFail :: acc)
+    | "Ei" :: r -> go r l (EIntr :: acc)
+    | n :: r ->
+        if l = [] then go r l acc
+        else let (c, l') = take (max 1 (int_of_string n)) l [] in go r l' (EData c :: acc) in
+  go (split '.' script) data []
+
 (* ---- observations ---- *)
 
 let parse_matrix prefix s : z list list option =
@@ -101,7 +117,7 @@ let parse_outcome (s : string) : obs =
   else if s = "PANIC" then BPanic
   else if s = "HANG" || s = "NOPROGRESS" then BHang
   else match String.split_on_char ':' s with
-    | ["R"; id; ac; na; de; data; refs; counts] ->
+    | ["R"; id; ac; na; de; data; refs; counts] | ["R"; id; ac; na; de; data; refs; counts; _; _] ->
         BRec { o_id = opt_str id; o_ac = opt_str ac; o_name = opt_str na; o_desc = opt_str de;
                o_data = parse_matrix 'm' data; o_refs = parse_refs refs; o_counts = parse_matrix 'c' counts }
     | _ -> raise (Unknown_outcome s)
@@ -312,6 +328,10 @@ let () =
         let toks = String.split_on_char ' ' inp in
         let id = List.hd toks in
         let verdict = ref "OK" in
+        (* a PROPFAIL that is the known finding F-T1 (the model of the code as it is predicts this very
+           panic): reported only when nothing else is wrong with the case, so that it never hides a DIFF
+           or another PROPFAIL *)
+        let known_v = ref "" in
         (* PROPFAIL takes precedence over DIFF; the first of each kind is kept *)
         let set_v v =
           if !verdict = "OK" then verdict := v
@@ -328,6 +348,8 @@ let () =
           let caps = List.map int_of_string (split ',' (get "caps")) in
           let pat = List.map int_of_string (split '.' (get "pat")) in
           let nchunkings = List.length caps + (if pat = [] then 0 else 1) in
+          (* number of requests made after the first error / end of input (C15 only) *)
+          let post = if get "post" = "" then 0 else int_of_string (get "post") in
           (* observed sequences *)
           let raw = split ';' (try List.assoc "obs" ofields with Not_found -> "") in
           if List.length raw <> nchunkings || raw = [] then set_v "DIFF observation-count"
@@ -336,11 +358,22 @@ let () =
             let raw = List.map (fun s -> if s = "=" then first else s) raw in
             let seqs = List.map parse_seq raw in
             let first_seq = List.hd seqs in
+            (* --- Record::to_freq(0.0) / (0.5) of every record of the first sequence against the extracted
+               TransfacFreq.to_freq applied to the record's own cells --- *)
+            List.iteri (fun k o ->
+              match String.split_on_char ':' o with
+              | ["R"; _; _; _; _; d; _; _; f0; f5] ->
+                  let want c = match parse_matrix 'm' d with
+                    | None -> None
+                    | Some m -> to_freq_bits al (z_of_int c) m in
+                  if parse_matrix 'q' f0 <> want 0 then set_v (Printf.sprintf "DIFF to_freq(0.0) outcome=%d" k);
+                  if parse_matrix 'q' f5 <> want 0x3f000000 then set_v (Printf.sprintf "DIFF to_freq(0.5) outcome=%d" k)
+              | _ -> ()) (split '|' first);
             (* --- property checkers on the implementation's observations --- *)
             if mode <> "c14" then
               List.iteri (fun k s ->
-                if not (check_c15 s) then
-                  set_v (Printf.sprintf "PROPFAIL c15 chunking=%d outcomes=%s" k (show_seq s))) seqs;
+                if not (check_c15p (nat_of_int post) s) then
+                  set_v (Printf.sprintf "PROPFAIL c15 chunking=%d post=%d outcomes=%s" k post (show_seq s))) seqs;
             if mode = "c14" then begin
               List.iteri (fun k r ->
                 if r <> first then set_v (Printf.sprintf "PROPFAIL c14 chunking-dependent chunking=%d" k)) raw;
@@ -362,8 +395,8 @@ let () =
                           match inst with
                           | Some recs ->
                               let expected = List.map (expected_record al) recs in
-                              if not (check_c14 expected first_seq) then begin
-                                let want = List.map (fun r -> BRec (observe_record r)) expected @ [BEnd] in
+                              if not (check_c14p expected (nat_of_int post) first_seq) then begin
+                                let want = List.map (fun r -> BRec (observe_record r)) expected @ (BEnd :: List.init post (fun _ -> BEnd)) in
                                 let at = match first_diff first_seq want O with Some k -> int_of_nat k | None -> -1 in
                                 let what = if at >= 0 && at < List.length first_seq && at < List.length want
                                   then diff_fields (List.nth first_seq at) (List.nth want at) else "length" in
@@ -378,8 +411,8 @@ let () =
                    let expected = List.map (fun (p, refs) ->
                      let r = expected_record al p in
                      match refs with Some l -> { r with r_refs = l } | None -> r) precs in
-                   if not (check_c14 expected first_seq) then begin
-                     let want = List.map (fun r -> BRec (observe_record r)) expected @ [BEnd] in
+                   if not (check_c14p expected (nat_of_int post) first_seq) then begin
+                     let want = List.map (fun r -> BRec (observe_record r)) expected @ (BEnd :: List.init post (fun _ -> BEnd)) in
                      let at = match first_diff first_seq want O with Some k -> int_of_nat k | None -> -1 in
                      let what = if at >= 0 && at < List.length first_seq && at < List.length want
                        then diff_fields (List.nth first_seq at) (List.nth want at) else "length" in
@@ -395,7 +428,8 @@ let () =
                    end)
             end;
             (* --- correspondence with the extracted model --- *)
-            let m_whole = model_run al [data] in
+            let m_whole = model_run_post al (nat_of_int post) [data] in
+            let model_run al s = model_run_post al (nat_of_int post) s in
             (match first_diff m_whole first_seq O with
              | None -> ()
              | Some k ->
@@ -415,6 +449,30 @@ let () =
             if List.length data <= 6000 then begin
               let m1 = model_run al (chunk_pattern [1] data) in
               if first_diff m_whole m1 O <> None then set_v "DIFF model-depends-on-chunking(1)"
+            end;
+            (* --- streams with scripted I/O faults (C15): model TransfacFault over the same script --- *)
+            if mode <> "c14" then begin
+              (* without faults the fault model is the reader model of the theorems (C15.fault_free_agree; with the
+                 repair in the source: the two agree on streams without faults all the same) *)
+              let m_ff = model_trace_cur al (nat_of_int post) [EData data] in
+              if first_diff m_whole m_ff O <> None then set_v "DIFF fault-model-differs-from-reader-model-without-faults";
+              let scripts = split '/' (get "evs") in
+              let eraw = split ';' (try List.assoc "eobs" ofields with Not_found -> "") in
+              if List.length eraw <> List.length scripts then set_v "DIFF observation-count(evs)"
+              else List.iteri (fun k (sc, r) ->
+                let s = parse_seq r in
+                let es = estream_of_script sc data in
+                let m = model_trace_cur al (nat_of_int post) es in
+                let agree = first_diff m s O = None in
+                if not (check_c15p (nat_of_int post) s) then begin
+                  (* F-T1: the panic the model of the code as it is predicts for this script *)
+                  let cls = if agree && List.mem BPanic m then "model=panic-too(F-T1:last-not-advanced-after-partial-line)" else "model=differs" in
+                  let msg = Printf.sprintf "PROPFAIL c15 io-fault script=%d(%s) post=%d %s outcomes=%s" k sc post cls (show_seq s) in
+                  if agree && List.mem BPanic m then (if !known_v = "" then known_v := msg) else set_v msg
+                end;
+                if not agree then
+                  set_v (Printf.sprintf "DIFF model-vs-implementation io-fault script=%d(%s) model=%s impl=%s" k sc (show_seq m) (show_seq s))
+              ) (List.combine scripts eraw)
             end
           end
         with
@@ -422,6 +480,7 @@ let () =
          | Unknown_outcome s -> set_v ("DIFF unknown-outcome " ^ (if String.length s > 40 then String.sub s 0 40 else s))
          | Failure m -> set_v ("DIFF driver-failure " ^ m)
          | Not_found -> set_v "DIFF driver-missing-field");
+        if !verdict = "OK" && !known_v <> "" then verdict := !known_v;
         print_endline (id ^ " " ^ !verdict)
       end
     done
